@@ -227,6 +227,9 @@ class Machine:
                 if t is None:
                     return self.result("FAIL", s, st, False)
             else:
+                if s in self.accepting and s.transitions and all(x.error_handling for x in s.transitions):
+                    # the parser has finished: only error transitions are left in this accepting state
+                    return self.result("DONE", s, st, False)
                 t = s[key]
                 if t is None:
                     if s in self.accepting:
